@@ -111,6 +111,17 @@ CLAIMS = {
              'values are symbolic (which float parameter / 0.0 / parameter x distance / sum), evaluated by python itself, so comparison with the '
              'code is exact.  Not proved: that the model BFS equals the shortest-path length (it is compared with the code and with an independent BFS).',
         design='8/C12', note=TB),
+    'C13': dict(
+        level='proof',
+        technique='Coq: general rejection theorems (all shapes) + kernel evaluation of the COMPLETE outcome tree of the reset model for shipped and small parameter sets (finite instances, bound in the statement) + full-tree comparison with the code',
+        text='Coq theorems (Props/C13.v): for each reset function the parameter conditions under which it raises ValueError whatever the randomness '
+             '(all shapes); draws raise only ValueError; and, by kernel evaluation (vm_compute) of `leaves`, for 13 of the 21 shipped parameter sets '
+             '(regenerated from the YAML files with numpy\'s linspace splits on every run) and 46 small parameter sets of all eight functions: EVERY '
+             'resolution of every random choice yields a state satisfying the property\'s statement (wf_check) or ValueError.  These are proofs for the '
+             'listed finite instances, not for all shapes: the unbounded claim is supported by T2 -- recorded draws on shapes 1x1..16x16 with parameter '
+             'sweeps and the complete outcome tree of the REAL code (ScriptedRng DFS, ~25k leaves quick) compared with the model\'s leaves -- and the '
+             'well-formedness oracle on every real outcome.  Shipped nine-room / memory-room / 9x9 sets are too large for the kernel in the quick tier.',
+        design='8/C13', note=TB + ' np.linspace results are inputs of the model (oracle), recomputed by the harness exactly as the code does.'),
     'C18': dict(
         level='proof',
         technique='Coq proof over unbounded Z (group laws, linear isometric action, transform group, area image, grid rotation) + regenerated tables + differential check',
